@@ -106,7 +106,12 @@ def families(rng):
             # the constraint function is undefined (NaN) where the unconstrained minimum lies
             t = optyx.Variable('t')
             return optyx.Problem().minimize((t + a) ** 2 if nl else t).subject_to(optyx.sqrt(t) >= b / 8)
-        for name, f in (('undefined-constraint', undefined_constraint), ('contradictory', contradictory), ('constraint-vs-bound', con_vs_bound), ('bound-active', bound_active),
+        def zero_bounds(nl):
+            # every finite bound is 0 (the special value): lower bound 0 on t, upper bound 0 on u, both active
+            t = optyx.Variable('t', lb=0)
+            u = optyx.Variable('u', ub=0)
+            return optyx.Problem().minimize((t + a) ** 2 + (u - b) ** 2 if nl else t - u)
+        for name, f in (('zero-bounds', zero_bounds), ('undefined-constraint', undefined_constraint), ('contradictory', contradictory), ('constraint-vs-bound', con_vs_bound), ('bound-active', bound_active),
                         ('feasible', feasible), ('nonlinear-infeasible', nonlinear_infeasible)):
             for nl in (False, True):
                 out.append(('%s/%s/a=%s,b=%s' % (name, 'nlp' if nl else 'lp', a, b), f, nl))
@@ -162,9 +167,12 @@ def run(report, tier):
         batch += part.pop('batch')
         report.merge(part)
     validate_traces(report, batch, 'C06 real solvers', keep=())
+    from .. import suitetrace
+    suitetrace.validate(report, keep=())
     from .. import apirun
     LP_KEEP[0] = 20 if tier == 'quick' else 3
-    apirun.run_config(report, 'MC_C05', observer=lp_observer, report_kinds=())
+    apirun.run_config(report, 'MC_C05', observer=lp_observer, report_kinds=(),
+                      overrides=None if tier == 'thorough' else {'ObjCands': '<- MC_ObjCandsQ'})
     return report.finish(
         rule='TLC enumerates every complete solve behaviour of MC_Sched without faults (15 methods x strict x 3 models x {no, one} '
              'constraint x every solver outcome class (success, message class, point feasible / violating a constraint / violating a bound) '
